@@ -47,8 +47,9 @@ CLAIMED = {
               "on 2-orbits) and EVERY base image (out-of-range ones included), Some(map) is a morphism with that base "
               "image (commutes with every operation, preserves every degree) and None means no morphism exists "
               "(decided against a fully symbolic candidate map); automorphisms() lists exactly the automorphisms, "
-              "each once. 2..4 chambers, dimension 2, source != target up to 2x2 (quick); 5 chambers, dimension 3, "
-              "3x3 (thorough). PARTIAL: fold / is_minimal / minimal_image (union-find over a HashMap index) and the "
+              "each once. Self-maps of 2..4 chambers in dimension 2 and 3..4 chambers in dimension 3, source != "
+              "target up to 2x2, automorphism list of 2..3 chambers (quick); 5 chambers, 3x2, 4x2, 3x3, list of 4 "
+              "(thorough). PARTIAL: fold / is_minimal / minimal_image (union-find over a HashMap index) and the "
               "statement about covers are NOT decided."),
         note=("Decided: the automorphism / morphism-search sentence of C04 for one instantiation of the generic code "
               "(ArrSym<N, D1>: size/dim/op/m read fixed arrays). Not decided: minimal image, minimality test, "
@@ -78,8 +79,8 @@ CLAIMED = {
                    "decided by SMT (z3 QF_BV, every completeness verdict re-run with cvc5): unsat(exists a valid "
                    "connected commuting D-set isomorphic to no output), unsat(exists an isomorphism between two "
                    "outputs); sat models are replayed natively against the real generator"),
-        text=("For every configuration (dim, max_size) of the tier — (1,5), (2,5), (3,4) quick; (1,7), (2,6), (3,5), "
-              "(4,4) thorough — the real DSets generator built from the current tree is run and its output list is "
+        text=("For every configuration (dim, max_size) of the tier — (1,7), (2,6), (3,5), (4,4) quick; (1,9), (2,7), "
+              "(3,6), (4,5), (5,4) thorough — the real DSets generator built from the current tree is run and its output list is "
               "turned into constants; an SMT solver then decides, over the whole universe of D-sets of each size "
               "<= max_size (symbolic tuples of involutions: complete, connected, non-adjacent operations commute), "
               "that none is missing (completeness) and, over all symbolic bijections, that no two outputs are "
@@ -99,6 +100,34 @@ CLAIMED = {
               "(thorough). relator_permutations (BTreeSet) is excluded."),
         note=("Decided: reducedness, equality with the oracle free reduction, group laws, strict total order, relator "
               "representative = least rotation/inverse rotation. Not decided: relator_permutations, longer words.")),
+    "C12": dict(
+        design_ref="DESIGN.md §4 C12",
+        engine="gen12",
+        quick_cmd="python3 engine/gen12.py check --tier quick",
+        thorough_cmd="python3 engine/gen12.py check --tier thorough",
+        replay="python3 engine/gen12.py replay {path}",
+        technique=("input-free configurations (parameter-only presentation families x index bound) are executed once "
+                   "from the current tree; the universally quantified part — over ALL transitive permutation actions "
+                   "satisfying the relators, i.e. all conjugacy classes of subgroups — is decided by SMT (z3 QF_BV, "
+                   "completeness verdicts re-run with cvc5): unsat(exists an action equivalent to no output table), "
+                   "unsat(exists an equivalence between two output tables); sat models are replayed natively"),
+        text=("PARTIAL. For presentations determined by integer parameters alone — free groups F_1..F_3 (F_4), free "
+              "abelian Z^2, Z^3 (Z^4), dihedral D_3, D_4 (D_5, D_6), cyclic C_6 (C_8), the genus-2 surface group, "
+              "triangle groups (2,3,3), (2,3,7) (and (2,3,4), (2,3,5), (2,3,6), (2,4,4)) — and index bounds k of 3..8, "
+              "the real coset_tables enumeration built from the current tree is run and its tables are turned into "
+              "constants; an SMT solver decides over the whole universe of transitive actions on r <= k points that "
+              "satisfy the relators (symbolic permutations) that each is equivalent to an output table (every "
+              "conjugacy class of subgroups of index <= k is represented) and, over all symbolic bijections, that no "
+              "two output tables are equivalent. Completeness and validity of each table (complete, permutations with "
+              "consistent inverse columns, transitive, relators fix every row, <= k rows) are ground checks. NOT "
+              "decided: arbitrary presentations (symbolic relator words), in particular fundamental groups of "
+              "D-symbols, and larger indices."),
+        note=("The enumeration's code is never modelled: for an input-free configuration its execution is a plain run. "
+              "The for-all of the property (every subgroup class, every renumbering) is the solver's. Trusted base: "
+              "rustc (release profile), z3 4.8.12 / cvc5 1.0, the QF_BV encoding of 'transitive action satisfying the "
+              "relators' and 'equivalent actions' in engine/gen12.py, the native replay driver native/verif_c12.rs. "
+              "The presentation families are a fixed list: a defect that needs a presentation outside the list is "
+              "not seen.")),
     "C14": dict(
         design_ref="DESIGN.md §4 C14",
         text=("Bounded model checking of gcdx (|a|,|b| <= 12 / 40), diagonalize_in_place (determinantal divisors "
@@ -137,7 +166,6 @@ NOT_APPLICABLE = {
     "C08": "curvature/orbifold_symbol go through Traversal, oriented_cover, HashSet and String",
     "C09": "Boundary is a HashMap, words live in BTreeMap/BTreeSet; oracle is a group isomorphism, not a bounded first-order statement",
     "C11": "BTreeSet<FreeWord> relator expansion, union-find in every table access, trip counts = group order",
-    "C12": "as C11 plus cloning of whole tables per back-tracking node and HashMaps in the canonicity test",
     "C13": "HashMap/HashSet keyed by Vec<usize>; inputs are C11/C12 objects; oracle is a group isomorphism",
     "C15": "whole pipeline (covers, coset tables, stabiliser, invariants) on symbols with tens of chambers",
     "C16": "whole pipeline on symbols with hundreds of chambers; HashSet iteration order inside network_cut",
@@ -193,6 +221,13 @@ def main():
             "serves_properties": ["C06"],
             "kind_free_text": "native run of the input-free generator from the current tree + SMT-LIB (QF_BV) queries over "
                               "the universe of D-sets and over bijections, z3 with cvc5 cross-check, native replay",
+        }, {
+            "name": "gen12",
+            "path": "engine/gen12.py",
+            "serves_properties": ["C12"],
+            "kind_free_text": "native run of coset_tables on input-free configurations from the current tree + SMT-LIB (QF_BV) "
+                              "queries over all transitive permutation actions and over bijections, z3 with cvc5 "
+                              "cross-check, native replay",
         }],
         "checks": checks,
         "not_applicable": [{"property_id": k, "reason": na[k]} for k in sorted(na)],
